@@ -110,7 +110,11 @@ func dhcpAlphabet() []dEvent {
 		// INIT-REBOOT of c2 for the address acknowledged to another client (refused, but it touches the session's host entry)
 		dEvent{Kind: "request", K: 1, Req: "rebootother"},
 		// c2 selects again the last offer it ever received (old xid), e.g. after a NAK
-		dEvent{Kind: "request", K: 1, Req: "replay"})
+		dEvent{Kind: "request", K: 1, Req: "replay"},
+		// c4 (the hardware address of c1, another client identifier) declines the address acknowledged to another client
+		dEvent{Kind: "decline", K: 3, Req: "other"}, dEvent{Kind: "request", K: 3, Req: "replay"},
+		// the client selects a server whose identifier lies outside the home LAN (a relayed server)
+		dEvent{Kind: "request", K: 0, Req: "otherserver-offlan"})
 	return a
 }
 
@@ -420,6 +424,13 @@ func runDHCP(alpha []dEvent, hist []int, o dhcpOpts) *dhcpResult {
 							}
 						}
 						deliver(dhcpFrame(ev.K, 3, reqXID, zero, bc, netip.Addr{}, [][2][]byte{{{50}, req.AsSlice()}, {{54}, dHost.AsSlice()}}))
+					case "otherserver-offlan":
+						delete(obs.acks, ev.K)
+						if l, ok := obs.lease[ev.K]; ok {
+							obs.maybe[ev.K] = l
+						}
+						delete(obs.lease, ev.K)
+						deliver(dhcpFrame(ev.K, 3, reqXID, zero, bc, netip.Addr{}, [][2][]byte{{{50}, last.AsSlice()}, {{54}, []byte{10, 9, 8, 7}}}))
 					case "otherserver":
 						// the client takes another server's offer: whatever it held from us is abandoned
 						delete(obs.acks, ev.K)
@@ -463,6 +474,13 @@ func runDHCP(alpha []dEvent, hist []int, o dhcpOpts) *dhcpResult {
 						ip = a.ip
 					} else if a, ok := obs.lease[ev.K]; ok {
 						ip = a.ip
+					}
+					if ev.Req == "other" { // the address acknowledged to ANOTHER client identifier
+						for k := 0; k < len(dClients); k++ {
+							if a, ok := obs.acks[k]; ok && k != ev.K {
+								ip = a.ip
+							}
+						}
 					}
 					deliver(dhcpFrame(ev.K, 4, 0x77, zero, bc, netip.Addr{}, [][2][]byte{{{50}, ip.AsSlice()}, {{54}, dHost.AsSlice()}}))
 					// the client gave the address up
@@ -644,7 +662,7 @@ func runDHCP(alpha []dEvent, hist []int, o dhcpOpts) *dhcpResult {
 					obs.everOffer[k], obs.everOfferXID[k] = a, reqXID
 				}
 			}
-			if ev.Kind == "request" && (ev.Req == "otherserver" || ev.Req == "otherrenew") {
+			if ev.Kind == "request" && (ev.Req == "otherserver" || ev.Req == "otherrenew" || ev.Req == "otherserver-offlan") {
 				for _, r := range step.replies {
 					if strings.HasPrefix(r, "5:") {
 						fail("segregate", "ack-other-server", "ACK sent although the client selected another server")
